@@ -1112,6 +1112,8 @@ func jobDecimal(r *ev.Run, agg *bAgg, b *bworld) error {
 }
 
 func partBFloors(r *ev.Run) {
+	r.Floor("B.churn.lookups", 1000)
+	r.Floor("B.churn.walks", 100)
 	r.Floor("B.decimal-boundary.transactions", 10)
 	r.Floor("B.transactions-verified", 5000)
 	r.Floor("B.oracle.must-accept", 500)
